@@ -54,10 +54,11 @@ def run(chk, repo):
     responses(chk, repo)
     directions(chk, repo)
     addressed(chk, repo)
+    no_give_up(chk, repo)
     from . import c15
     chk.doc("R15.4", "the mailbox counter survives a failed exchange "
                      "(shared with C15)")
-    c15.section(chk, repo)
+    c15.section_all(chk, repo)
     chk.doc("R15.3", "the mailbox counter cycle (shared with C15)")
     c15.counter(chk, repo)
     chk.doc("R15.1", "an exchange holds the mailbox lock from its request "
@@ -541,6 +542,34 @@ def object_entries(chk, repo):
            "their little-endian struct encoding (11 types / bit lengths by "
            "abstract execution)", not bad, wr, "; ".join(bad[:2]) or
            "value -> pack('<'+fmt) -> sdo_write; sdo_read -> unpack")
+
+
+def no_give_up(chk, repo):
+    """mbx_recv waits for the mail: it does not give up on its own before
+    the mailbox was read.  A response that arrives after the waiting was
+    abandoned stays in the mailbox - the transfer is reported as failed
+    although it took place, and the stale response is what the next
+    exchange finds.  (Failing because a datagram failed is something else:
+    that comes from the read itself.)"""
+    sym = T + ".mbx_recv"
+    f = repo.func(sym)
+    chk.analysed(sym)
+    cfg = CFG(f, raises="none")
+    reads = [n for n in cfg.nodes if n.expr is not None and any(
+        isinstance(c, ast.Call) and match("self.read", c.func) is not None
+        and c.args and "mbx_in_off" in unparse(c.args[0])
+        for c in walk_expr(n.expr))]
+    need(reads, f"{sym}: mailbox read not found")
+    rids = {n.id for n in reads}
+    raises = [n for n in cfg.reachable(cfg.entry, avoid=lambda m: m.id in rids)
+              if isinstance(getattr(n, "stmt", None), ast.Raise)
+              and n.kind != "test"]
+    chk.ob("R16.5", sym, "no explicit give-up before the mailbox is read",
+           not raises, raises[0].stmt if raises else f,
+           (f"`{unparse(raises[0].stmt)[:60]}` is reachable before the "
+            f"mailbox read: a response arriving later stays in the mailbox "
+            f"and is taken for the answer to the next request") if raises
+           else "the status poll ends only when mail is there")
 
 
 def drain_before_send(chk, repo):
